@@ -1,17 +1,152 @@
 import SigmaVerif.Model.Coll
+import SigmaVerif.Lemmas.Coll
+/-!
+# C08 — a failing rule never changes other rules' output; every query is accounted for
+
+`convertAll` models `Backend.convert` over the ordered collection.  `conv i avail` is the conversion
+of rule `i` given the rules that already have a conversion result; nothing is assumed about it.
+
+Specification functions (in `Lemmas/Coll.lean`):
+```
+def accounting (output : Nat → Bool) (conv : Nat → List Nat → Except E (List Q)) :
+    List Nat → List Nat → List Q × List (Nat × E)
+  | [], _ => ([], [])
+  | i :: rest, avail =>
+    match conv i avail with
+    | .ok r =>
+      ((if output i then r else []) ++ (accounting output conv rest (i :: avail)).1,
+       (accounting output conv rest (i :: avail)).2)
+    | .error e =>
+      ((accounting output conv rest avail).1, (i, e) :: (accounting output conv rest avail).2)
+
+def availAfter (conv : Nat → List Nat → Except E (List Q)) : List Nat → List Nat → List Nat
+  | [], avail => avail
+  | i :: rest, avail =>
+    match conv i avail with
+    | .ok _ => availAfter conv rest (i :: avail)
+    | .error _ => availAfter conv rest avail
+```
+i.e. a rule whose conversion succeeds contributes its queries iff its output flag is set and becomes
+available; a failing rule contributes no query, exactly one error record, and does not become
+available.  `availAfter conv pre avail` = the rules with a result after going through `pre`.
+-/
 namespace SigmaVerif.Props.C08
 open SigmaVerif.Coll
 
-/-- with error collection the conversion of a collection never raises -/
-theorem collect_never_raises {Q E : Type} (output : Nat → Bool) (conv : Nat → List Nat → Except E (List Q))
+variable {Q E : Type}
+
+/-- with error collection the outcome is exactly the accounting of queries and errors -/
+theorem convertAll_collect_accounting (output : Nat → Bool)
+    (conv : Nat → List Nat → Except E (List Q)) (rules avail : List Nat) (qs : List Q)
+    (es : List (Nat × E)) :
+    convertAll true output conv rules avail qs es
+      = .ok (qs ++ (accounting output conv rules avail).1)
+            (es ++ (accounting output conv rules avail).2) :=
+  convertAll_true_eq output conv rules avail qs es
+
+/-- with error collection nothing is ever raised -/
+theorem collect_never_raises (output : Nat → Bool) (conv : Nat → List Nat → Except E (List Q))
+    (rules avail : List Nat) (qs : List Q) (es : List (Nat × E)) (i : Nat) (e : E) :
+    convertAll true output conv rules avail qs es ≠ .raised i e := by
+  rw [convertAll_collect_accounting]
+  intro h; cases h
+
+/-- the error list has exactly one entry per failing rule, in collection order: position `p`
+contributes `(rules[p], e)` iff converting `rules[p]`, given the rules before it that were converted
+successfully, fails with `e` -/
+theorem errors_one_per_failing_rule (output : Nat → Bool)
+    (conv : Nat → List Nat → Except E (List Q)) (rules avail : List Nat) :
+    (accounting output conv rules avail).2
+      = (List.range rules.length).filterMap (fun p =>
+          match conv (rules.getD p 0) (availAfter conv (rules.take p) avail) with
+          | .error e => some (rules.getD p 0, e)
+          | .ok _ => none) :=
+  accounting_errors_positions output conv rules avail
+
+/-- every rule ends up either with a conversion result or with exactly one error record -/
+theorem every_rule_accounted (output : Nat → Bool) (conv : Nat → List Nat → Except E (List Q))
+    (rules avail : List Nat) :
+    (accounting output conv rules avail).2.length + (availAfter conv rules avail).length
+      = rules.length + avail.length :=
+  accounting_total output conv rules avail
+
+/-- For rules whose conversion does not depend on other rules' results (plain detection rules),
+the queries are exactly what converting each rule alone yields, and the errors exactly the errors
+of the failing rules: failing rules change nothing else. -/
+theorem independent_rules_unaffected (output : Nat → Bool)
+    (conv : Nat → List Nat → Except E (List Q)) (rules avail : List Nat) (qs : List Q)
+    (es : List (Nat × E)) (hind : ∀ i ∈ rules, ∀ a b, conv i a = conv i b) :
+    convertAll true output conv rules avail qs es
+      = .ok (qs ++ (rules.filter output).flatMap
+                      (fun i => match conv i [] with | .ok r => r | .error _ => []))
+            (es ++ rules.filterMap
+                      (fun i => match conv i [] with | .ok _ => none | .error e => some (i, e))) := by
+  rw [convertAll_collect_accounting]
+  obtain ⟨h1, h2⟩ := accounting_independent output conv rules avail hind
+  rw [h1, h2]
+  rfl
+
+/-- without error collection the first error that collection would have recorded is raised; if
+there is none the queries are the same as with collection -/
+theorem first_error_raised (output : Nat → Bool) (conv : Nat → List Nat → Except E (List Q))
     (rules avail : List Nat) (qs : List Q) (es : List (Nat × E)) :
-    ∃ q e, convertAll true output conv rules avail qs es = .ok q e := by
-  induction rules generalizing avail qs es with
-  | nil => exact ⟨qs, es, rfl⟩
-  | cons i rest ih =>
-    unfold convertAll
-    cases h : conv i avail with
-    | ok r => simpa [h] using ih _ _ _
-    | error e => simpa [h] using ih _ _ _
+    convertAll false output conv rules avail qs es
+      = match (accounting output conv rules avail).2 with
+        | [] => .ok (qs ++ (accounting output conv rules avail).1) es
+        | (i, e) :: _ => .raised i e :=
+  convertAll_false_eq output conv rules avail qs es
+
+/-- `.raised i e` is the outcome exactly if `i` is the first rule (in order) whose conversion
+fails, with `e`, given the successfully converted rules before it -/
+theorem raised_iff_first_failure (output : Nat → Bool)
+    (conv : Nat → List Nat → Except E (List Q)) (rules avail : List Nat) (qs : List Q)
+    (es : List (Nat × E)) (i : Nat) (e : E) :
+    convertAll false output conv rules avail qs es = .raised i e ↔
+    ∃ pre post, rules = pre ++ i :: post ∧ (accounting output conv pre avail).2 = [] ∧
+      conv i (availAfter conv pre avail) = .error e := by
+  rw [← accounting_errors_cons_iff, first_error_raised]
+  cases h : (accounting output conv rules avail).2 with
+  | nil => simp
+  | cons x tl =>
+    obtain ⟨j, e'⟩ := x
+    simp only [Outcome.raised.injEq, List.cons.injEq, Prod.mk.injEq, exists_and_left,
+      exists_eq', and_true]
+
+/-- Link to C09: if a rule's conversion succeeds whenever all rules it refers to have a result
+(so plain rules always succeed), then converting in the order produced by `order` never fails
+with "conversion result not available" — in either mode there is no error. -/
+theorem corr_needs_refs (n : Nat) (g : Nat → List Nat) (hc : Closed n g) (hacyc : Acyclic n g)
+    (output : Nat → Bool) (conv : Nat → List Nat → Except E (List Q))
+    (hconv : ∀ v avail, (∀ w ∈ g v, w ∈ avail) → ∃ r, conv v avail = .ok r) (collect : Bool) :
+    convertAll collect output conv (order n g) [] [] []
+      = .ok (accounting output conv (order n g) []).1 [] := by
+  obtain ⟨r, hr⟩ := hacyc
+  have hnd := (order_spec hc).1
+  have htopo := order_topo hc hr
+  have hE : (accounting output conv (order n g) []).2 = [] := by
+    apply accounting_no_errors output conv g hconv
+    intro pre v post heq w hw
+    exact .inl (htopo.split hnd heq w hw)
+  cases collect with
+  | true => rw [convertAll_collect_accounting, hE]; simp
+  | false => rw [first_error_raised, hE]; simp
+
+/-- positions form: in `order n g` every rule occurs after all rules it refers to -/
+theorem refs_before (n : Nat) (g : Nat → List Nat) (hc : Closed n g) (hacyc : Acyclic n g)
+    (pre post : List Nat) (v : Nat) (heq : order n g = pre ++ v :: post) : ∀ w ∈ g v, w ∈ pre := by
+  obtain ⟨r, hr⟩ := hacyc
+  exact (order_topo hc hr).split (order_spec hc).1 heq
+
+/-! ## Non-vacuity: rule 1 fails, rule 3 (a correlation over 1 and 2) therefore too; rules 0 and 2
+are unaffected; rule 2 has its output flag off -/
+example :
+    let conv : Nat → List Nat → Except String (List String) := fun i avail =>
+      if i = 1 then .error "unsupported"
+      else if i = 3 then (if avail.contains 1 && avail.contains 2 then .ok ["corr"] else .error "not available")
+      else .ok [s!"q{i}"]
+    convertAll true (fun i => i != 2) conv [0, 1, 2, 3] [] [] []
+        = .ok ["q0"] [(1, "unsupported"), (3, "not available")] ∧
+    convertAll false (fun i => i != 2) conv [0, 1, 2, 3] [] [] [] = .raised 1 "unsupported" := by
+  exact ⟨rfl, rfl⟩
 
 end SigmaVerif.Props.C08
